@@ -67,9 +67,11 @@ class DataFrame(Entity, DataSet):
             row_tuple = tuple(row_list)
             new_da.append(row_tuple)
         farr = np.ascontiguousarray(new_da, dtype=dt)
+        compr = self._h5group.group['data'].compression is not None
         del self._h5group.group['data']
-        self._h5group.group['data'] = farr
-        self._h5group.create_dataset("data", (self.shape[0],), dt)
+        # re-create the dataset the way create_new does (chunked, unlimited),
+        # so that rows can still be appended afterwards
+        self._h5group.create_dataset("data", (len(farr),), dt, compr)
         self.write_direct(farr)
 
     def append_rows(self, data):
